@@ -219,6 +219,18 @@ theorem star_names_qualified (tables : List Table) (q : String) (hq : q ≠ "") 
     · have h' : (q != t.rel.name) = true := by simp; exact fun e => h e.symm
       simp [relOf, colInfoOf, h, hq, h', Function.comp_def]
 
+/-- a level built from the model's tables has no merged (JOIN … USING) columns -/
+theorem levelOf_not_merged (tables : List Table) : (levelOf tables).any (fun r => r.cols.any (·.merged)) = false := by
+  unfold levelOf
+  induction tables with
+  | nil => rfl
+  | cons t ts ih =>
+    simp only [List.map_cons, List.any_cons, ih, Bool.or_false]
+    simp [relOf, colInfoOf]
+
+theorem starOf_all (tables : List Table) : starOf (levelOf tables) [] = .ok ((levelOf tables).flatMap (·.cols)) := by
+  simp [starOf, levelOf_not_merged]
+
 /-- **C02 / C07, one level (refinement).** What the model puts for `*` and for `q.*` is, name by name and in
 the same order, what the database's rule (`PgSem.starOf` on that level alone) puts — for every list of tables in
 scope; and `q.*` with a qualifier no relation of the level carries is the one case the database rejects. -/
@@ -227,7 +239,7 @@ theorem C02_star_refines (tables : List Table) :
     (∀ q, q ≠ "" → (∃ t ∈ tables, t.rel.name = q) →
       ∃ cs, starOf (levelOf tables) [q] = .ok cs ∧ cs.map (·.name) = (starColumns tables q none).map (·.name)) ∧
     (∀ q, (∀ t ∈ tables, t.rel.name ≠ q) → starOf (levelOf tables) [q] = .error (.qualifierMissing q)) := by
-  refine ⟨⟨_, rfl, (star_names_all tables).symm⟩, ?_, ?_⟩
+  refine ⟨⟨_, starOf_all tables, (star_names_all tables).symm⟩, ?_, ?_⟩
   · intro q hq ⟨t, ht, htq⟩
     have hne : ((levelOf tables).filter (·.qual == q)).isEmpty = false := by
       rw [List.isEmpty_eq_false_iff_exists_mem]
